@@ -624,6 +624,14 @@ Qed.
 End Whole.
 
 (** ---------- small facts stated in Properties/C13.v, C19.v *)
+(** "exactly one write hits the cell" gives the final content of the cell (what ends up in the file) *)
+Lemma inout_final env inp x r c w : 0 <= c < 1024 ->
+  writes_at (sw_writes (inout_sheet env inp x)) r c = [w] -> cell_at (sw_writes (inout_sheet env inp x)) r c = cw_val w.
+Proof. intros Hc H. apply cell_at_single; [exact Hc|eapply box_cols; apply inout_box|exact H]. Qed.
+Lemma tax_final env inp x lm r c w : 0 <= c < 1024 ->
+  writes_at (sw_writes (tax_sheet env inp x lm)) r c = [w] -> cell_at (sw_writes (tax_sheet env inp x lm)) r c = cw_val w.
+Proof. intros Hc H. apply cell_at_single; [exact Hc|eapply box_cols; apply tax_box|exact H]. Qed.
+
 Lemma inout_rows_values c :
   3 <= il_in (inout_rows_of c) /\
   il_in (inout_rows_of c) + Z.of_nat (length (cd_ins c)) + 3 <= il_out (inout_rows_of c) /\
